@@ -2,6 +2,7 @@
 from __future__ import annotations
 
 import ast
+import re
 
 import z3
 
@@ -16,6 +17,14 @@ from .sorts import (TBool, TDict, TEnum, TInt, TList, TNone, TOpaque, TOpt, TRea
 class CallMixin:
     def ev_Call(self, node: ast.Call) -> SV:
         d = dotted(node.func)
+        if not self.spec_mode and (d is None or self.reg.dynamic_dispatch):
+            src = ast.unparse(node)
+            if src == "asyncio.get_running_loop().time()":
+                return self.ext_call("time.monotonic", node)
+            for pat, q in self.reg.dynamic_dispatch.items():
+                if re.fullmatch(pat, src, re.S):
+                    # dynamic dispatch (getattr(self, f"do_{...}")(cmd)): abstracted by one contract for all handlers
+                    return self.call_contract(self.reg.contracts[q], self.self_sv, node)
         if d is not None and not self.spec_mode and self.is_dropped(d):
             return mk_none()
         # spec vocabulary
@@ -377,7 +386,8 @@ class CallMixin:
         raise Unsupported("sum", node)
 
     def bi_hasattr(self, node):
-        raise Unsupported("hasattr", node)
+        # attribute presence decided at run time: explored both ways
+        return mk_bool(self.ctx.fresh_term(z3.BoolSort(), "hasattr"))
 
     def bi_print(self, node):
         return mk_none()
@@ -844,6 +854,8 @@ class CallMixin:
             self.args_of(node)
             self.yield_point(node, "sleep")
             return mk_none()
+        if full == "sys.exit":
+            raise PyRaise(SExc("SystemExit"))
         if full in ("copy.copy", "copy.deepcopy"):
             (v,) = self.args_of(node)
             return SV(v.ty, v.t)
@@ -1013,6 +1025,8 @@ class CallMixin:
         name = ast.literal_eval(node.args[0])
         fl = getattr(self, "final_locals", None) or {}
         if name not in fl:
+            if len(node.args) > 1:
+                return self.eval(node.args[1])  # default for exits where the local is not bound
             raise Unsupported(f"contract refers to local {name!r} which does not exist at this exit", node)
         v = fl[name]
         if v.place is not None and v.place[0] != "local":
